@@ -451,6 +451,9 @@ LP64 = [  # (regex on the declaration without the name, size, alignment)
 ]
 
 
+FIELD_TYPES = {}        # field name -> declared type (spaces squeezed out), filled by node_layout
+
+
 def node_layout(hdr):
     m = re.search(r"struct\s+MemoryLeakDetectorNode\s*\{", hdr)
     if not m:
@@ -488,6 +491,7 @@ def node_layout(hdr):
         if not mm:
             raise TranslateError("cannot read field: " + d)
         ty = squeeze(mm.group(1).replace("const", ""))
+        FIELD_TYPES[mm.group(2)] = ty
         for rx, size, al in LP64:
             if re.fullmatch(rx, ty):
                 fields.append((mm.group(2), size, al))
@@ -699,6 +703,14 @@ def extract():
     L.append("def guardBytes : List UInt8 := [%s]" % ", ".join(str(b) for b in gb))
     L.append("/-- `sizeof(MemoryLeakDetectorNode)` from the struct's fields, LP64 -/")
     L.append("def sizeofNode : Nat := %d" % node_size)
+    if "size_" not in FIELD_TYPES:
+        raise TranslateError("MemoryLeakDetectorNode has no field size_")
+    size_ty = FIELD_TYPES["size_"]
+    size_bytes = [f[2] for f in layout if f[0] == "size_"][0]
+    L.append("/-- declared type of `MemoryLeakDetectorNode::size_` (what `size_ = size` in `init` keeps of a `size_t`) -/")
+    L.append('def nodeSizeFieldType : String := "%s"' % size_ty)
+    L.append("/-- width in bits of that field, LP64 -/")
+    L.append("def nodeSizeFieldBits : Nat := %d" % (8 * size_bytes))
     L.append("/-- field, offset, size -/")
     L.append("def nodeFields : List (String × Nat × Nat) := [%s]" % ", ".join('("%s", %d, %d)' % f for f in layout))
     L.append("")
